@@ -1,10 +1,10 @@
 use chrono::Duration;
 use nom::branch::alt;
 use nom::bytes::complete::tag;
-use nom::character::complete::char;
+use nom::character::complete::{char, digit0};
 use nom::combinator::{map, opt};
 use nom::multi::many1;
-use nom::number::complete::double;
+use nom::sequence::preceded;
 use nom::IResult;
 
 // Constants representing time units in nanoseconds
@@ -34,11 +34,27 @@ const MICROSECOND: u128 = 1_000;
 pub fn parse_duration(i: &str) -> IResult<&str, Duration> {
     let (i, neg) = opt(parse_negative)(i)?;
     if i == "0" {
-        return Ok((i, Duration::zero()));
+        return Ok(("", Duration::zero()));
     }
-    let (i, duration) = many1(parse_number_unit)(i)
-        .map(|(i, d)| (i, d.iter().fold(Duration::zero(), |acc, next| acc + *next)))?;
-    Ok((i, duration * if neg.is_some() { -1 } else { 1 }))
+    let (i, terms) = many1(parse_number_unit)(i)?;
+    // Sum the exact nanosecond counts; the result has to fit the signed 64-bit range.
+    let magnitude = terms
+        .iter()
+        .try_fold(0u128, |acc, next| acc.checked_add(*next))
+        .ok_or_else(|| too_large(i))?;
+    let nanos = if neg.is_some() {
+        0i128.checked_sub_unsigned(magnitude)
+    } else {
+        i128::try_from(magnitude).ok()
+    };
+    let nanos = nanos
+        .and_then(|n| i64::try_from(n).ok())
+        .ok_or_else(|| too_large(i))?;
+    Ok((i, Duration::nanoseconds(nanos)))
+}
+
+fn too_large(i: &str) -> nom::Err<nom::error::Error<&str>> {
+    nom::Err::Failure(nom::error::Error::new(i, nom::error::ErrorKind::TooLarge))
 }
 
 enum Unit {
@@ -51,7 +67,7 @@ enum Unit {
 }
 
 impl Unit {
-    fn nanos(&self) -> i64 {
+    fn nanos(&self) -> u128 {
         match self {
             Unit::Nanosecond => 1,
             Unit::Microsecond => 1_000,
@@ -63,11 +79,33 @@ impl Unit {
     }
 }
 
-fn parse_number_unit(i: &str) -> IResult<&str, Duration> {
-    let (i, num) = double(i)?;
+/// One `<decimal number><unit>` term, as its exact number of nanoseconds (a fraction of a
+/// nanosecond is dropped). The number is plain decimal: digits with an optional fraction.
+fn parse_number_unit(i: &str) -> IResult<&str, u128> {
+    let (i, int) = digit0(i)?;
+    let (i, frac) = opt(preceded(char('.'), digit0))(i)?;
+    let frac = frac.unwrap_or("");
+    if int.is_empty() && frac.is_empty() {
+        return Err(nom::Err::Error(nom::error::Error::new(
+            i,
+            nom::error::ErrorKind::Digit,
+        )));
+    }
     let (i, unit) = parse_unit(i)?;
-    let duration = to_duration(num, unit);
-    Ok((i, duration))
+    let int = if int.is_empty() {
+        0
+    } else {
+        int.parse::<u64>().map_err(|_| too_large(i))? as u128
+    };
+    // 18 fractional digits are far below the resolution of every unit.
+    let frac = &frac[..frac.len().min(18)];
+    let frac_value = if frac.is_empty() {
+        0
+    } else {
+        frac.parse::<u128>().map_err(|_| too_large(i))?
+    };
+    let nanos = int * unit.nanos() + frac_value * unit.nanos() / 10u128.pow(frac.len() as u32);
+    Ok((i, nanos))
 }
 
 fn parse_negative(i: &str) -> IResult<&str, ()> {
@@ -79,15 +117,14 @@ fn parse_unit(i: &str) -> IResult<&str, Unit> {
     alt((
         map(tag("ms"), |_| Unit::Millisecond),
         map(tag("us"), |_| Unit::Microsecond),
+        // what format_duration prints (U+00B5), and the Greek letter mu (U+03BC)
+        map(tag("\u{b5}s"), |_| Unit::Microsecond),
+        map(tag("\u{3bc}s"), |_| Unit::Microsecond),
         map(tag("ns"), |_| Unit::Nanosecond),
         map(char('h'), |_| Unit::Hour),
         map(char('m'), |_| Unit::Minute),
         map(char('s'), |_| Unit::Second),
     ))(i)
-}
-
-fn to_duration(num: f64, unit: Unit) -> Duration {
-    Duration::nanoseconds((num * unit.nanos() as f64).trunc() as i64)
 }
 
 /// Formats a [`Duration`] into a string. String returns a string representing the
